@@ -20,7 +20,18 @@ from . import _mech as M
 LEVEL = "exploration"
 CLAUSES = ["TractionExact", "TranslationGivesZero", "BoundDisplacementExact"]
 KEY = "mechanics"
-MATCHERS = {}  # no defect found on the current tree: nothing to recognise as a known finding
+
+
+def _neumann_on_mixed_face_types(v):
+    """Mpsa._create_bound_rhs distributes a Neumann face value over the sub-faces with 1 / num_face_nodes looked up
+    through `fno_ext = np.tile(fno, nd)`, which is indexed with sub-face-major indices: the node count of ANOTHER face is
+    used.  Harmless while all faces have the same number of nodes; on a grid with mixed face types (prisms: 3 and 4
+    nodes) the traction is inexact as soon as there is a Neumann (or Robin) face.  Exactly that class: the grid has
+    faces with different node counts, at least one Neumann face, the code did not raise, clause TractionExact."""
+    return (v["clause"] == "TractionExact" and len(set(v["face_sizes"])) > 1 and len(v["neu"]) >= 1 and not v["error"])
+
+
+MATCHERS = {"mpsa_neumann_mixed_face_types": _neumann_on_mixed_face_types}
 
 
 def discretize(g, mu, lam, neu, inverter, partition):
@@ -153,6 +164,14 @@ def plan(ctx):
                     extra.append(dict(recipe=rcp, mu=2, lam=1, inverter="python", partition=part, neu=[], few=False))
                     extra.append(dict(recipe=rcp, mu=1, lam=3, inverter="numba", partition=part, few=False,
                                       neu=greedy_no_shared_edge(g, rng)[:: 2]))
+        # a larger prism grid (24 cells), whole and through the split path
+        for variant in ("plain", "perturbed"):
+            rcp = M.recipe_for("prism", [3, 2, 2], variant, rng)
+            g = M.build(rcp)
+            extra.append(dict(recipe=rcp, mu=2, lam=1, inverter="python", partition=None, neu=[], few=False))
+            extra.append(dict(recipe=rcp, mu=1, lam=3, inverter="numba", partition={"num_subproblems": 3}, neu=[], few=False))
+            extra.append(dict(recipe=rcp, mu=1, lam=1, inverter="python", partition={"max_memory": 30000}, few=False,
+                              neu=greedy_no_shared_edge(g, rng)[:: 2]))
         recs += extra
     return recs
 
@@ -178,12 +197,14 @@ def greedy_no_shared_edge(g, rng):
 
 
 def run(ctx):
-    ctx.rule = ("TLC enumerates (Cartesian | structured simplex grid) x (cells per direction <= 3 in 2D, <= 2 in 3D) x (plain | "
-                "lattice-perturbed / sheared with planar faces) x mu in {1,2} x lambda in {0,1,3} x (all-Dirichlet | mixed); for "
+    ctx.rule = ("TLC enumerates (Cartesian | structured simplex grid | extruded triangle grid = triangular prisms, faces with 3 "
+                "and 4 nodes) x (cells per direction <= 3 in 2D, <= 2 in 3D; prisms: 1x1 / 2x1 squares of two triangles, 1-2 "
+                "layers) x (plain | lattice-perturbed / sheared with planar faces; prisms: perturbed base, non-uniform layer "
+                "heights) x mu in {1,2} x lambda in {0,1,3} x (all-Dirichlet | mixed); for "
                 "the mixed mode TLC enumerates the admissible Neumann sets of <= 2 faces of the real grid (3D: no shared edge) "
                 "and the harness adds one seeded larger set.  Each configuration is discretised with pp.Mpsa and applied to "
                 "every linear field of the family (translations, rotations, strains).  One evaluation = one (configuration, "
-                "field); classes = (kind, dim, #cells, operations, mu, lambda, #Neumann, inverter, split); non-trivial = "
+                "field); classes = (kind, dim, #cells, face node counts, operations, mu, lambda, #Neumann, inverter, split); non-trivial = "
                 "several cells or a Neumann face")
     ctx.assumptions = ["integer node coordinates |x| <= 12, planar faces, valid cells (ValidE decided by TLC on the exported grid)",
                        "constant isotropic stiffness with integer Lame parameters",
